@@ -19,7 +19,9 @@ def gen_case(rng, n_ops, faults=False, crashes=False):
     out = [f"reset {rng.choice([32, 32, 32, 3, 4])}"]
     users = ["U1", "U2", "U3", "U4"]
     for u in users:
-        out.append(f"user {u} {rng.choice(['JRWPAS', 'JRWPAS', 'JRWPS', 'JRWP', 'N', 'JRWPASDO'])} {rng.choice(['JR', 'N', 'JRW'])}"
+        # default access of an account as the server stores it (user.go:97-117, topic.go:2184-2203): within JRWPAS / JRWPA, and
+        # with A unless it is N
+        out.append(f"user {u} {rng.choice(['JRWPAS', 'JRWPAS', 'JRWPA', 'JRWA', 'N', 'JRPAS'])} {rng.choice(['JRA', 'N', 'JRWA'])}"
                    + (" state=susp" if u == "U4" and rng.chance(1, 4) else ""))
     sess = [("S1", "U1", "auth", ""), ("S2", "U2", "auth", ""), ("S3", "U3", "auth", ""), ("S4", "U1", "auth", ""),
             ("S5", "U2", "auth", "bg"), ("S6", "U4", "anon", ""), ("S7", "U3", "root", "")]
@@ -36,6 +38,17 @@ def gen_case(rng, n_ops, faults=False, crashes=False):
             # requests other than {sub} mostly come from sessions which are attached
             s = rng.choice(sorted(att[t]))
             su, lvl = [(x[1], x[2]) for x in sess if x[0] == s][0]
+        # peer-to-peer: the topic is addressed by the other user's name; the stored topic is P:<a>:<b>
+        p2p = k >= 4 and rng.chance(1, 4)
+        if p2p:
+            peer = rng.choice([u for u in users if u != su] * 6 + [su])
+            t = peer
+            key = "P:" + ":".join(sorted([su, peer]))
+            if k >= 22 and att.get(key) and rng.chance(3, 4):
+                s = rng.choice(sorted(att[key]))
+                su, lvl = [(x[1], x[2]) for x in sess if x[0] == s][0]
+                others = [u for u in key[2:].split(":") if u != su]
+                t = others[0] if others else su
         pre = []
         if t and faults and rng.chance(1, 6):
             pre.append(f"fail {1 + rng.below(4)}")
@@ -46,7 +59,9 @@ def gen_case(rng, n_ops, faults=False, crashes=False):
             asx = f" as={rng.choice(users)}" + rng.choice(["", ":auth", ":anon", ":root"])
         elif rng.chance(1, 60):
             asx = f" as={rng.choice(users)}"
-        if ntop == 0 or k < 4:
+        if p2p:
+            asx = ""        # on-behalf-of requests are exercised on group topics only
+        if (ntop == 0 and not p2p) or k < 4:
             if ntop >= 3:
                 continue
             o = f"newgrp {s}"
@@ -115,15 +130,15 @@ def gen_case(rng, n_ops, faults=False, crashes=False):
             out.append(rng.choice(["fg S5", "fg S5", f"drop {s}", "drop S5"]))
             continue
         else:
-            out.append(f"unload {t}")
+            out.append(f"unload {key if p2p else t}")
             if crashes and rng.chance(1, 3):
                 out.append("restart")
                 att = {}
             continue
         if o.startswith("sub "):
-            att.setdefault(t, set()).add(s)
+            att.setdefault(key if p2p else t, set()).add(s)
         elif o.startswith("leave ") or o.startswith("deltopic "):
-            att.get(t, set()).discard(s)
+            att.get(key if p2p else t, set()).discard(s)
         out.extend(pre)
         out.append(o + asx)
         if any(p.startswith("crash") for p in pre) and rng.chance(1, 2):
@@ -141,7 +156,7 @@ def _preamble(rng, maxsubs=32, modes=None):
     out = [f"reset {maxsubs}"]
     modes = modes or {}
     for u in ("U1", "U2", "U3", "U4"):
-        out.append(f"user {u} {modes.get(u, 'JRWPAS')} {rng.choice(['N', 'JR'])}")
+        out.append(f"user {u} {modes.get(u, 'JRWPAS')} {rng.choice(['N', 'JRA'])}")
     for s, u, lvl, bg in (("S1", "U1", "auth", ""), ("S2", "U2", "auth", ""), ("S3", "U3", "auth", ""), ("S4", "U1", "auth", ""),
                           ("S5", "U2", "auth", "bg"), ("S6", "U4", "anon", ""), ("S7", "U3", "root", "")):
         out.append(f"sess {s} {u} {lvl} {bg}".strip())
